@@ -412,8 +412,8 @@ def _remove_invalid_ckpts(
   checkpoint_files = [
     os.path.join(dir_path, c)
     for c in checkpoint_files
-    if c.match(f'{prefix}*')
-    and not c.match(f'{prefix}tmp')
+    if c.name.startswith(prefix)
+    and c.name != f'{prefix}tmp'
     and not c.match(f'*{MP_ARRAY_POSTFIX}')
     and not c.match(f'*{ocp.utils.TMP_DIR_SUFFIX}*')
   ]
@@ -535,7 +535,7 @@ def _check_overwrite_error(
   checkpoint_files = [
     os.path.join(dir_path, c)
     for c in checkpoint_files
-    if c.match(f'{prefix}*')
+    if c.name.startswith(prefix)
     and not c.match(f'*{MP_ARRAY_POSTFIX}')
     and not c.match(f'*{ocp.utils.TMP_DIR_SUFFIX}*')
   ]
@@ -964,8 +964,8 @@ def _all_checkpoints(
   checkpoint_files = [
     os.path.join(ckpt_dir, c)
     for c in checkpoint_files
-    if c.match(f'{prefix}*')
-    and not c.match(f'{prefix}tmp')
+    if c.name.startswith(prefix)
+    and c.name != f'{prefix}tmp'
     and not c.match(f'*{MP_ARRAY_POSTFIX}')
     and not c.match(f'*{ocp.utils.TMP_DIR_SUFFIX}*')
   ]
